@@ -96,7 +96,7 @@ static inline int parse_xml(XmlDoc& d, Document* doc, bool newxta = true)
 struct MLoc { std::string id, name, inv, rate; bool urgent = false, committed = false; };
 struct MEdge { int src = 0, dst = 0; bool src_bp = false, dst_bp = false; int ctrl = 0 /* 0 attribute absent, 1 "true", 2 "false" */; std::string select, guard, sync, assign, prob;
     std::string dst_ref_override, dst_name_override;   /* faults: XML target ref / XTA target name given verbatim */ };
-struct MTemplate { std::string name, params, decls; std::vector<MLoc> locs; std::vector<std::string> bps; int init = 0; std::vector<MEdge> edges; };
+struct MTemplate { std::string name, params, decls; std::vector<MLoc> locs; std::vector<std::string> bps; int init = 0; std::vector<MEdge> edges; std::string init_ref_override, init_name_override; /* faults: what init names instead of a location */ };
 struct MModel { std::string gdecl; std::vector<MTemplate> templs; std::string system; };
 
 static inline std::string loc_name(const MLoc& l) { return l.name.empty() ? "_" + l.id : l.name; }
@@ -124,7 +124,7 @@ static inline XmlDoc render_xml(const MModel& m)
             d.end();
         }
         for (auto& b : t.bps) d.empty("branchpoint", {{"id", b}});
-        d.empty("init", {{"ref", t.locs[t.init].id}});
+        d.empty("init", {{"ref", !t.init_ref_override.empty() ? t.init_ref_override : t.locs[t.init].id}});
         for (auto& e : t.edges) {
             std::vector<VAttr> a;
             if (e.ctrl == 1) a.push_back({"controllable", "true"}); else if (e.ctrl == 2) a.push_back({"controllable", "false"});
@@ -161,7 +161,7 @@ static inline std::string render_xta(const MModel& m, bool chain = false)
         for (auto& l : t.locs) { if (l.committed) c += (c.empty() ? "" : ", ") + loc_name(l); if (l.urgent) u += (u.empty() ? "" : ", ") + loc_name(l); }
         if (!c.empty()) s += " commit " + c + ";\n";
         if (!u.empty()) s += " urgent " + u + ";\n";
-        s += " init " + loc_name(t.locs[t.init]) + ";\n";
+        s += " init " + (!t.init_name_override.empty() ? t.init_name_override : loc_name(t.locs[t.init])) + ";\n";
         if (!t.edges.empty()) {
             s += " trans\n";
             for (size_t i = 0; i < t.edges.size(); i++) {
